@@ -257,7 +257,8 @@ func c15GenNumeric(r c15R, op string) *c15Spec {
 		v = strconv.FormatInt(int64(r.Uint64()), 10)
 	default:
 		// text without a pinned numeric reading: evaluated (must not panic), not judged
-		v = c15Pick(r, []string{"abc", "007", "+1", " 1", "1 ", "1.5", "-0", "0x10", "1e3", "99999999999999999999", "-99999999999999999999", "-", "١"})
+		// digit strings with leading zeros are decimal; the rest has no pinned numeric reading (evaluated for panics only)
+		v = c15Pick(r, []string{"abc", "007", "010", "0999", "-08", "00", "+1", " 1", "1 ", "1.5", "-0", "0x10", "0b11", "0o17", "1_000", "1e3", "99999999999999999999", "-99999999999999999999", "-", "١"})
 	}
 	if c15Chance(r, 0.4) {
 		c15MacroArg(r, s, "", true, "", v, "")
@@ -269,8 +270,8 @@ func c15GenNumeric(r c15R, op string) *c15Spec {
 
 func c15NumericInput(r c15R, s *c15Spec) string {
 	exp := string(*s.Expanded)
-	if r.IntN(12) == 0 {
-		return c15Pick(r, []string{"", "abc", "007", "+5", " 5", "5 ", "5.0", "-0", "99999999999999999999", "\xff", "5\x00"})
+	if r.IntN(8) == 0 {
+		return c15Pick(r, []string{"", "abc", "007", "010", "08", "0999999", "-010", "+5", " 5", "5 ", "5.0", "-0", "0x10", "1_000", "99999999999999999999", "\xff", "5\x00"})
 	}
 	if b, ok := c15CanonInt(exp); ok && c15InInt64(b) && r.IntN(5) != 0 {
 		base := b.Int64()
